@@ -4,6 +4,8 @@ import (
 	"fmt"
 	L "github.com/evanw/esbuild/verifharness/c18lib"
 	. "github.com/evanw/esbuild/verifharness/hlib"
+	"os"
+	"strings"
 )
 
 func baseOpt(entries ...string) L.Opt {
@@ -122,6 +124,26 @@ func glueTargeted(st *Stats) {
 		pm := mk()
 		pm.Opt.NoSrcContent = true
 		run(tag+"mappings-only", pm, func(p *L.Project) { p.Mods[0].Comment += "\n// shifts the lines" })
+	}
+	// a chunk ABOVE the output directory (--entry-names=../[name]-[hash]) that must import chunks
+	// inside it: filepath.Rel cannot express the path, the build has to fail ("Cannot traverse from
+	// directory ..") and emit nothing - never a reference that does not resolve
+	{
+		p := &L.Project{Mods: []L.Module{{Name: "a.js", Lit: "a", Static: []int{2}, Dynamic: []int{3}}, {Name: "b.js", Lit: "b", Static: []int{2}}, {Name: "shared.js", Lit: "s"}, {Name: "dyn.js", Lit: "d"}},
+			Assets: map[string]string{}, Opt: baseOpt("a.js", "b.js")}
+		p.Opt.EntryNames = "../[name]-[hash]"
+		dir, err := os.MkdirTemp("", "verif-c18-")
+		if err != nil {
+			panic(err)
+		}
+		L.WriteTree(dir, nil, p.Render())
+		b := L.Build(dir, &p.Opt)
+		os.RemoveAll(dir)
+		refused := len(b.Outputs) == 0 && strings.Contains(strings.Join(b.Errors, "\n"), "Cannot traverse from directory")
+		st.Note("targeted", "chunk-above-outdir-refused", refused)
+		if !refused {
+			st.Fail("reference-does-not-name-an-emitted-file", map[string]interface{}{"scenario": "chunk-above-outdir-not-refused", "project": p, "errors": b.Errors}, b.Paths(), "a failed build without output")
+		}
 	}
 	// placeholder-like text in the inputs next to real references
 	{
